@@ -10,6 +10,7 @@ import subprocess
 import sys
 
 VERIF = os.path.dirname(os.path.dirname(os.path.abspath(__file__)))
+REPO = os.environ.get("MUT_REPO", "/repo")  # a scratch worktree of /repo can be used instead (checks then run with POLAR_REPO=<it>)
 os.chdir(VERIF)
 seed = sys.argv[1] if len(sys.argv) > 1 else "1"
 flt = sys.argv[2] if len(sys.argv) > 2 else ""
@@ -24,14 +25,14 @@ for name in sorted(os.listdir("seeded")):
     d = os.path.join("seeded", name)
     if not os.path.isdir(d) or flt not in name:
         continue
-    if subprocess.run(["git", "-C", "/repo", "diff", "--quiet"]).returncode != 0:
-        print("/repo not clean"); sys.exit(2)
-    if subprocess.run(["git", "-C", "/repo", "apply", os.path.abspath(os.path.join(d, "patch.diff"))]).returncode != 0:
+    if subprocess.run(["git", "-C", REPO, "diff", "--quiet"]).returncode != 0:
+        print(REPO + " not clean"); sys.exit(2)
+    if subprocess.run(["git", "-C", REPO, "apply", os.path.abspath(os.path.join(d, "patch.diff"))]).returncode != 0:
         rows.append((name, "patch does not apply", [])); continue
     res = []
     try:
         for c in CHECKS.get(name, [name.split("-")[0]]):
-            env = dict(os.environ, VERIF_SEED=seed)
+            env = dict(os.environ, VERIF_SEED=seed, POLAR_REPO=REPO)
             p = subprocess.run(["./check", c, "--tier", "quick"], capture_output=True, text=True, env=env)
             viol = [l for l in p.stdout.splitlines() if l.startswith("VIOLATION")]
             summ = [l for l in p.stdout.splitlines() if "seed=" in l]
@@ -48,7 +49,7 @@ for name in sorted(os.listdir("seeded")):
             res.append({"check": c, "seed": int(seed), "exit": p.returncode, "violations": len(viol), "buckets": buckets, "summary": summ[-1][:200] if summ else ""})
             print(name, c, "exit", p.returncode, buckets, flush=True)
     finally:
-        subprocess.run(["git", "-C", "/repo", "checkout", "--", "."])
+        subprocess.run(["git", "-C", REPO, "checkout", "--", "."])
     mp = os.path.join(d, "meta.json")
     meta = json.load(open(mp))
     meta["latest"] = res
